@@ -96,11 +96,11 @@ Section FlatIsTree.
              destruct o; cbn [key_is_and binop_eqb andb negb];
                try (rewrite rbind_assoc; apply rbind_ext; intros [r0 st2]; reflexivity).
              ++ (* And *) destruct (truthy a); cbn [Bool.eqb negb]; [|reflexivity].
-                rewrite <- (rbind_ret_pair (rbind (evalx x st1) _)) at 1. rewrite rbind_assoc.
-                apply rbind_ext. intros [r0 st2]. apply rbind_ext. intros [n st3]. reflexivity.
+                apply rbind_ext. intros [r0 st2].
+                etransitivity; [|apply rbind_ret_pair]. apply rbind_ext. intros [n st3]. reflexivity.
              ++ (* Or *) destruct (truthy a); cbn [Bool.eqb negb]; [reflexivity|].
-                rewrite <- (rbind_ret_pair (rbind (evalx x st1) _)) at 1. rewrite rbind_assoc.
-                apply rbind_ext. intros [r0 st2]. apply rbind_ext. intros [n st3]. reflexivity.
+                apply rbind_ext. intros [r0 st2].
+                etransitivity; [|apply rbind_ret_pair]. apply rbind_ext. intros [n st3]. reflexivity.
           -- cbn [teval]. rewrite <- IH, rbind_assoc. apply rbind_ext. intros [v st1].
              rewrite flat_cons2, Hp. cbn [ikey]. rewrite alazy_spec. reflexivity.
   Qed.
